@@ -2505,6 +2505,30 @@ done:
 
 /*--------------------------------------------------------------------------
  NAME
+    GRIimglength
+ PURPOSE
+    Internal routine: number of bytes of image data written so far
+ RETURNS
+    The length or FAIL
+ DESCRIPTION
+    An image which is open through the buffered driver (compressed images)
+    keeps its data in memory until the access ends, so the element in the
+    file may still be empty while the image has been written: the access is
+    asked when there is one.
+--------------------------------------------------------------------------*/
+static int32
+GRIimglength(ri_info_t *ri_ptr)
+{
+    int32 length = 0;
+
+    if (ri_ptr->img_aid != 0 &&
+        Hinquire(ri_ptr->img_aid, NULL, NULL, NULL, &length, NULL, NULL, NULL, NULL) != FAIL)
+        return length;
+    return Hlength(ri_ptr->gr_ptr->hdf_file_id, ri_ptr->img_tag, ri_ptr->img_ref);
+} /* end GRIimglength() */
+
+/*--------------------------------------------------------------------------
+ NAME
     GRwriteimage
 
  PURPOSE
@@ -2674,7 +2698,7 @@ GRwriteimage(int32 riid, int32 start[2], int32 in_stride[2], int32 count[2], voi
         new_image = TRUE;
     else {
         /* Check if the actual image data is in the file yet, or if just the tag & ref are known */
-        if (Hlength(ri_ptr->gr_ptr->hdf_file_id, ri_ptr->img_tag, ri_ptr->img_ref) > 0)
+        if (GRIimglength(ri_ptr) > 0)
             new_image = FALSE;
         else
             new_image = TRUE;
@@ -3063,7 +3087,7 @@ GRreadimage(int32 riid, int32 start[2], int32 in_stride[2], int32 count[2], void
     else {
         /* Check if the actual image data is in the file yet, or if just the
            tag & ref are known */
-        if (Hlength(hdf_file_id, ri_ptr->img_tag, ri_ptr->img_ref) > 0)
+        if (GRIimglength(ri_ptr) > 0)
             image_data = TRUE;
         else
             image_data = FALSE;
